@@ -241,3 +241,52 @@ func VH_C04_StaleUDPClient() {
 		vk.S[vConnFD].Owner == vk.Framework && vk.S[vConnFD].Closes == 0 && w.el.countConn() == 1)
 	vReach("C04.staleudp.end")
 }
+
+// Opening: whatever OnOpen answers (a reply or none; None / Close / Shutdown; or closing the connection itself from
+// inside OnOpen), the handler has seen OnOpen exactly once and first, OnClose at most once and only for a locally
+// requested reason (nil error), and the count is opened-minus-closed. Both registration entries (accept: register0
+// directly; main reactor / client: the queued registration task).
+//
+//verif: mode=int unwind=6
+func VH_C04_OpenActions() {
+	et := vNondetBool("et")
+	w := vNewWorld(et, 1<<20)
+	c2 := w.vOpenConn(vConn2FD, "c2", false, false)
+	c := newStreamConn("tcp", vConnFD, w.el, vRemoteSA, vLocalAddr, vRemoteAddr)
+	vk.S[vConnFD] = vk.Sock{Owner: vk.Framework, Stream: true}
+	vk.MaxWrites = 3
+	act := Action(vPick("onopen.action", 3))
+	closeInside := vNondetBool("close_inside_onopen")
+	var reply []byte
+	if vNondetBool("with_reply") {
+		reply = vNondetBytes("reply", 3)
+	}
+	w.h.onOpen = func(cc *conn) ([]byte, Action) {
+		if closeInside {
+			_ = w.el.Close(cc)
+		}
+		return reply, act
+	}
+	var err error
+	if vNondetBool("through_the_task_queue") {
+		_ = w.el.poller.Trigger(1, w.el.register, c)
+		_, err = w.el.poller.VRunOne()
+	} else {
+		err = w.el.register0(c)
+	}
+	g := w.h.g(c)
+	vAssert("C04.open.onopen_exactly_once_and_first", g.opens == 1 && g.openBeforeTraffic && g.traffics == 0)
+	closed := closeInside || act == Close
+	if closed {
+		vAssert("C04.open.closed_once_with_nil_error", g.closes == 1 && g.closeErrNil && w.vClosedOK(c, vConnFD) && w.el.countConn() == 1)
+	} else {
+		vAssert("C04.open.stays_open", g.closes == 0 && c.opened && w.el.connections.getConn(vConnFD) == c && w.el.countConn() == 2 && w.vConnInv(c))
+	}
+	if act == Shutdown && !closeInside {
+		vAssert("C04.open.shutdown_action_is_the_sentinel", err != nil)
+	} else {
+		vAssert("C04.open.no_engine_error", err == nil)
+	}
+	vAssert("C04.open.bystander_untouched", c2.opened && w.h.g(c2).closes == 0 && w.h.g(c2).traffics == 0)
+	vReach("C04.open.end")
+}
